@@ -3,6 +3,7 @@ C04 — events are chunked completely and in order, and chunking terminates.
 Lean (PyndlProps/C04.lean): chunks_concat, writeEvents_window,
 name_key_roundtrip, sort_is_numeric, count_any_order, first_closing_job,
 submit_loop_terminates (every completion oracle, exact multiples included),
+submit_loop_step_semantics (runLoop, the pass-by-pass semantics, ends in the closed form's state),
 submit_loop_diverges_on_multiple_old_rule (F1, repaired), learn_chunk_independent.
 Correspondence: create_binary_event_files on n_events x events_per_file (every
 exact-multiple pair, pairs giving >= 11 chunks) x n_jobs 1..4 with per-job
@@ -20,6 +21,7 @@ run of the real function: the directory must afterwards hold exactly the new chu
 """
 import gen
 import learners as L
+import common
 from common import rng
 
 TIMEOUT = 120        # a conversion polls once a second per batch: up to ~14 s idle; a hang is seen at 120 s just as well
@@ -167,6 +169,13 @@ def run(rep, pool, driver, tier):
             rep.count('create_chunks_stale_files_two_digit_names')
         if (n + per - 1) // per >= 4 * t['n_jobs']:
             rep.count('create_chunks_throttle_boundary_reached:n_jobs=%d' % t['n_jobs'])
+        # model against model: the step semantics of the submit loop (runLoop) and its closed form (simulate) are proved
+        # equal (C04 submit_loop_step_semantics); a difference here is a defect of the machinery, not of pyndl
+        lp = model.get('loop')
+        if not lp or lp['submitted'] != model['sim_submitted'] or lp['total'] != model['sim_total']:
+            raise common.Infra('driver: runLoop %r differs from simulate (%r, %r) although proved equal'
+                               % (lp, model['sim_submitted'], model['sim_total']))
+        rep.count('submit_loop_passes:%s' % ('<=4' if lp['submitted'] <= 4 else '5-16' if lp['submitted'] <= 16 else '>16'))
         prob = chunk_problem(t, impl, model)
         if prob and reported < 3:
             reported += 1
